@@ -7,6 +7,7 @@ CONSTANTS
   ModLocs = {"mo.py"}
   PVals = {1, 2}
   MVals = {3}
+  OVals = {101, 102}
   WithDelSpace = TRUE
   OpenFindings = {}
   MaxOps = 3
